@@ -267,7 +267,7 @@ func main() {
 		return
 	}
 	r := report.New("C06", tier, "model_checking")
-	r.Rule = "E1: every structure tree of the six GeoJSON types with 1..3 members (first member non-empty, later members possibly empty), lengths 0..2(3) x every rotation of 19 finite float64 patterns (full product for points) : Encode text re-read with json.Number into a generic tree must be {type, coordinates} nested exactly as the type requires with [x,y] literals parsing bit-exactly; Decode(Encode(g)) bit-identical, also with every ring / line of >= 3 vertices closed by repeating its first vertex; the bytes returned by Encode unchanged by a later Encode call; each single coordinate slot replaced by NaN/+Inf/-Inf must make Encode fail; unsupported types rejected. Non-trivial = geometries with >= 2 members."
+	r.Rule = "E1: every structure tree of the six GeoJSON types with 1..3 members (first member non-empty, later members possibly empty), lengths 0..2(3) x every rotation of 19 finite float64 patterns (full product for points; every ordered pattern pair alternating between neighbouring vertices) : Encode text re-read with json.Number into a generic tree must be {type, coordinates} nested exactly as the type requires with [x,y] literals parsing bit-exactly; Decode(Encode(g)) bit-identical, also with every ring / line of >= 3 vertices closed by repeating its first vertex; the bytes returned by Encode unchanged by a later Encode call; each single coordinate slot replaced by NaN/+Inf/-Inf must make Encode fail; unsupported types rejected. Non-trivial = geometries with >= 2 members."
 	cfg := geomgen.Config{MaxMembers: 3, Lens: []int{0, 1, 2, 3}, FlatMax: 3, PolyRings: 2}
 	if tier == "thorough" {
 		cfg = geomgen.Config{MaxMembers: 3, Lens: []int{0, 1, 2, 3}, FlatMax: 4, PolyRings: 3}
@@ -280,6 +280,15 @@ func main() {
 	}
 	r.Set("skeletons", len(skels))
 	np := len(geomgen.FinitePatterns)
+	// pattern indices of the alternating-neighbour family: -0, 5e-324, 0.1, 1e21,
+	// -1.5, 100, 0 in the quick tier, all patterns in the thorough tier
+	altPatterns := []int{0, 1, 3, 5, 13, 17, 18}
+	if tier == "thorough" {
+		altPatterns = nil
+		for i := range geomgen.FinitePatterns {
+			altPatterns = append(altPatterns, i)
+		}
+	}
 	var n, nontrivial int64
 	// sequential history pass (one goroutine, so any sharing between calls is
 	// deterministic): Encode(a), Encode(b), Encode(c); every earlier result
@@ -327,6 +336,25 @@ func main() {
 		for rot := 0; rot < np; rot++ {
 			run(Case{Skel: s, Rot: rot, Bad: -1})
 			run(Case{Skel: s, Rot: rot, Bad: -1, Closed: true})
+		}
+		// neighbouring vertices: every ordered pattern pair alternating along the
+		// vertex list in the same ordinate (x: a,b,a,.. y: b,a,b,..), open and
+		// closed, so that e.g. the first and last vertex differ only in the
+		// sign of a zero
+		if s.NPoints() >= 2 {
+			for _, a := range altPatterns {
+				for _, b := range altPatterns {
+					pair := make([]int, 2*s.NPoints())
+					for j := range pair {
+						if (j/2+j%2)%2 == 0 {
+							pair[j] = a
+						} else {
+							pair[j] = b
+						}
+					}
+					run(Case{Skel: s, Pair: pair, Bad: -1})
+				}
+			}
 		}
 		for slot := 0; slot < 2*s.NPoints(); slot++ {
 			for v := range nonfinite {
